@@ -1106,8 +1106,10 @@ class Environments(collections.abc.Sequence, Sequence[Environment]):
         decor = [StampLog()] if processes ==1 else [NameLog(), StampLog()]
 
         CobaContext.logger = DecoratedLogger([ExceptLog()], CobaContext.logger, decor)
-        disk.write(objs.filter(self_envs))
-        CobaContext.logger = CobaContext.logger.undecorate()
+        try:
+            disk.write(objs.filter(self_envs))
+        finally:
+            CobaContext.logger = CobaContext.logger.undecorate()
 
         return Environments.from_save(path)
 
